@@ -170,8 +170,9 @@ type layoutGotext struct {
 // Text returns a readonly slice of the text in the layout
 func (l layoutGotext) Text() []rune { return l.text }
 
-// Metrics may return nil when [TextDecorationLine] is empty
-func (layoutGotext) Metrics() *LineMetrics { return nil }
+// Metrics is not implemented yet : it returns empty metrics (and not nil,
+// the text decorations are drawn from them)
+func (layoutGotext) Metrics() *LineMetrics { return &LineMetrics{} }
 
 // Justification returns the current justification
 func (layoutGotext) Justification() pr.Float { return 0 }
